@@ -412,7 +412,15 @@ def _maybe_attach_shm(
     except (ValueError, UnicodeDecodeError):
         _logger.warning("Ignoring malformed SHM metadata: name=%r, size=%r", shm_name_bytes, shm_size_bytes)
         return None
-    return ShmSegment.attach(shm_name, shm_size, track=False)
+    try:
+        return ShmSegment.attach(shm_name, shm_size, track=False)
+    except (OSError, ValueError) as exc:
+        # The name and size are the peer's claim.  A segment that does not
+        # exist, is not a vgi-rpc segment, or does not have the advertised
+        # size is a bad request, not a reason to stop serving: carry on without
+        # shm (a request that depended on it is then refused as malformed).
+        _logger.warning("Ignoring SHM segment %r that cannot be attached: %s", shm_name, exc)
+        return None
 
 
 class _ConnectionShm:
@@ -870,6 +878,18 @@ class RpcServer:
                     _write_error_stream(transport.writer, _EMPTY_SCHEMA, exc, server_id=self._server_id)
                 raise
             except (VersionError, RpcError) as exc:
+                with contextlib.suppress(BrokenPipeError, OSError):
+                    _write_error_stream(transport.writer, _EMPTY_SCHEMA, exc, server_id=self._server_id)
+                return
+            except (EOFError, StopIteration, BrokenPipeError, ConnectionResetError, ConnectionAbortedError):
+                raise  # the peer is gone: ``serve`` ends the connection
+            except Exception as exc:
+                # ``_read_request`` consumes the request stream to its EOS
+                # before it interprets anything, so whatever failed here --
+                # undecodable trace or shm metadata values, an inconsistent
+                # shm pointer -- failed on a request that is fully read.
+                # Answer it; propagating would end the connection without a
+                # reply and leave the peer waiting.
                 with contextlib.suppress(BrokenPipeError, OSError):
                     _write_error_stream(transport.writer, _EMPTY_SCHEMA, exc, server_id=self._server_id)
                 return
